@@ -2986,7 +2986,9 @@ int32_t writeRecordHeader(ssl_t *ssl, uint8_t type, uint8_t hsType,
             if (psGetPrngLocked(*c, ssl->cipher->blockSize,
                     ssl->userPtr) < 0)
             {
+                /* no fresh explicit IV: do not send what the buffer held */
                 psTraceInfo("WARNING: psGetPrngLocked failed\n");
+                return PS_FAILURE;
             }
             *c += ssl->cipher->blockSize;
         }
@@ -2997,7 +2999,9 @@ int32_t writeRecordHeader(ssl_t *ssl, uint8_t type, uint8_t hsType,
     {
         if (psGetPrngLocked(*c, ssl->enBlockSize, ssl->userPtr) < 0)
         {
+            /* no fresh explicit IV: do not send what the buffer held */
             psTraceInfo("WARNING: psGetPrngLocked failed\n");
+            return PS_FAILURE;
         }
         *c += ssl->enBlockSize;
     }
